@@ -539,7 +539,59 @@ def lexer_harnesses() -> List[Harness]:
     return [h, h2]
 
 
+def spec_selfcheck_harnesses() -> List[Harness]:
+    """The oracle i8086_spec.rs is hand-transcribed; these units cross-check it against an independent
+    formulation (carry-chain / bitwise identities instead of widening arithmetic), for all inputs.
+    They involve no emulator code: they reduce the trust placed in the transcription."""
+    out = []
+    for w, t, top in ((8, "u8", "0x80"), (16, "u16", "0x8000")):
+        sh = w - 1
+        for op, sub in (("Add", False), ("Adc", False), ("Sub", True), ("Sbb", True)):
+            b = f"        let a: {t} = kani::any();\n        let b: {t} = kani::any();\n        let cin: bool = kani::any();\n"
+            b += f"        let (r, f) = {S}::alu{w}({S}::Alu::{op}, a, b, cin);\n"
+            c = "(cin as " + t + ")" if op in ("Adc", "Sbb") else "0"
+            if not sub:
+                b += f"        let r2 = a.wrapping_add(b).wrapping_add({c});\n"
+                b += f"        let carries = (a & b) | ((a | b) & !r2);\n"            # carry out of each bit position
+                b += f"        let of2 = ((a ^ r2) & (b ^ r2)) & {top} != 0;\n"
+            else:
+                b += f"        let r2 = a.wrapping_sub(b).wrapping_sub({c});\n"
+                b += f"        let carries = (!a & b) | ((!a | b) & r2);\n"           # borrow out of each bit position
+                b += f"        let of2 = ((a ^ b) & (a ^ r2)) & {top} != 0;\n"
+            b += A(f"spec.alu{w}.{op}.result", "r == r2")
+            b += A(f"spec.alu{w}.{op}.CF", f"(f & {S}::CF != 0) == (carries & {top} != 0)")
+            b += A(f"spec.alu{w}.{op}.AF", f"(f & {S}::AF != 0) == (carries & 0x08 != 0)")
+            b += A(f"spec.alu{w}.{op}.OF", f"(f & {S}::OF != 0) == of2")
+            b += A(f"spec.alu{w}.{op}.ZF_SF", f"(f & {S}::ZF != 0) == (r2 == 0) && (f & {S}::SF != 0) == (r2 & {top} != 0)")
+            b += A(f"spec.alu{w}.{op}.PF", f"(f & {S}::PF != 0) == ((r2 as u8).count_ones() % 2 == 0)")
+            out.append(Harness(f"s_alu{w}_{op.lower()}", ["C01"], b,
+                               [f"spec.alu{w}.{op}.{x}" for x in ("result", "CF", "AF", "OF", "ZF_SF", "PF")], ["i8086_spec::alu" + str(w)], unwind=10))
+        # shifts / rotates: the N-step reference against closed forms for counts below the width
+        for k, closed in (("Sal", "v << n"), ("Shr", "v >> n"), ("Rol", "v.rotate_left(n as u32)"), ("Ror", "v.rotate_right(n as u32)")):
+            b = f"        let v: {t} = kani::any();\n        let n: {t} = kani::any();\n        kani::assume(n >= 1 && n < {w});\n        let cf: bool = kani::any();\n"
+            b += f"        let (r, c) = {S}::sh_n({S}::Sh::{k}, {w}, v as u32, cf, n as u32);\n"
+            b += A(f"spec.sh{w}.{k}.closed_form", f"r as {t} == {closed}")
+            last = {"Sal": f"(v >> ({w} - n)) & 1 != 0", "Shr": "(v >> (n - 1)) & 1 != 0",
+                    "Rol": f"({closed}) & 1 != 0", "Ror": f"({closed}) & {top} != 0"}[k]
+            b += A(f"spec.sh{w}.{k}.CF_is_last_bit_out", f"c == ({last})")
+            out.append(Harness(f"s_sh{w}_{k.lower()}", ["C02"], b, [f"spec.sh{w}.{k}.closed_form", f"spec.sh{w}.{k}.CF_is_last_bit_out"],
+                               ["i8086_spec::sh_n"], unwind=w + 3))
+    # division reference: quotient * divisor + remainder == dividend, |remainder| < |divisor|
+    b = "        let ax: u16 = kani::any();\n        let v: u8 = kani::any();\n"
+    b += f"        match {S}::div8(ax, v) {{\n            {S}::DivOut::Ok(q, r) => {{\n"
+    b += "    " + A("spec.div8.euclid", "v != 0 && q <= 0xFF && (r as u32) < v as u32 && q as u32 * v as u32 + r as u32 == ax as u32")
+    b += f"            }}\n            _ => {{\n    " + A("spec.div8.fault_iff", "v == 0 || (ax as u32) / (if v == 0 { 1 } else { v as u32 }) > 0xFF") + "            }\n        }\n"
+    out.append(Harness("s_div8", ["C03"], b, ["spec.div8.euclid", "spec.div8.fault_iff"], ["i8086_spec::div8"]))
+    b = "        let al: u8 = kani::any();\n        let v: u8 = kani::any();\n"
+    b += f"        let (p, c) = {S}::imul8(al, v);\n"
+    b += A("spec.imul8.product", "p as i16 as i32 == (al as i8 as i32) * (v as i8 as i32)")
+    b += A("spec.imul8.CF_OF_iff_AH_not_sign_extension", "c == ((p >> 8) as u8 != (if p & 0x80 != 0 { 0xFFu8 } else { 0u8 }))")
+    out.append(Harness("s_imul8", ["C03"], b, ["spec.imul8.product", "spec.imul8.CF_OF_iff_AH_not_sign_extension"], ["i8086_spec::imul8"]))
+    return out
+
+
 L0_HARNESSES: Dict[str, List[Harness]] = {
+    "src/lib/arch.rs": spec_selfcheck_harnesses(),
     "src/lib/preprocessor/lexer_helper.rs": lexer_harnesses(),
     "src/lib/vm.rs": vm_harnesses(),
     "src/lib/instructions/string.rs": string_harnesses(),
